@@ -141,40 +141,40 @@ impl Sut {
 // Independent oracle: logical forest with multiset reference counting.
 
 #[derive(Clone, Debug)]
-struct ONode {
-	data: String,         // value token
-	children: Vec<usize>, // oracle node ids, in order (same id may repeat)
-	refs: u64,            // number of references from live nodes and live roots, with multiplicity
-	addr: Option<u64>,    // real address learned from reading the implementation back
-	expanded: usize,      // number of nodes of the logical expansion
-	depth: usize,
+pub(crate) struct ONode {
+	pub(crate) data: String,         // value token
+	pub(crate) children: Vec<usize>, // oracle node ids, in order (same id may repeat)
+	pub(crate) refs: u64,            // number of references from live nodes and live roots, with multiplicity
+	pub(crate) addr: Option<u64>,    // real address learned from reading the implementation back
+	pub(crate) expanded: usize,      // number of nodes of the logical expansion
+	pub(crate) depth: usize,
 }
 
 #[derive(Clone, Debug)]
-struct ORoot {
-	data: String,
-	children: Vec<usize>,
-	count: u64,
+pub(crate) struct ORoot {
+	pub(crate) data: String,
+	pub(crate) children: Vec<usize>,
+	pub(crate) count: u64,
 }
 
 #[derive(Default)]
-struct Forest {
-	nodes: HashMap<usize, ONode>,
-	roots: BTreeMap<Vec<u8>, ORoot>,
-	next_id: usize,
+pub(crate) struct Forest {
+	pub(crate) nodes: HashMap<usize, ONode>,
+	pub(crate) roots: BTreeMap<Vec<u8>, ORoot>,
+	pub(crate) next_id: usize,
 }
 
 /// Generated tree: new nodes and references to existing oracle nodes.
 #[derive(Clone, Debug)]
-enum GRef {
+pub(crate) enum GRef {
 	New(GNode),
 	Existing(usize),
 }
 
 #[derive(Clone, Debug)]
-struct GNode {
-	data: String,
-	children: Vec<GRef>,
+pub(crate) struct GNode {
+	pub(crate) data: String,
+	pub(crate) children: Vec<GRef>,
 }
 
 impl Forest {
@@ -204,7 +204,7 @@ impl Forest {
 			},
 		}
 	}
-	fn insert(&mut self, key: &[u8], g: &GNode, counting: bool) {
+	pub(crate) fn insert(&mut self, key: &[u8], g: &GNode, counting: bool) {
 		let children = g.children.iter().map(|c| self.add_ref(c, counting)).collect();
 		self.roots.insert(key.to_vec(), ORoot { data: g.data.clone(), children, count: 1 });
 	}
@@ -219,7 +219,7 @@ impl Forest {
 		}
 	}
 	/// returns true when the tree is gone
-	fn deref(&mut self, key: &[u8]) -> bool {
+	pub(crate) fn deref(&mut self, key: &[u8]) -> bool {
 		let r = self.roots.get_mut(key).unwrap();
 		r.count -= 1;
 		if r.count == 0 {
@@ -242,7 +242,7 @@ impl Forest {
 		}
 		out.push(')');
 	}
-	fn render(&self, key: &[u8]) -> String {
+	pub(crate) fn render(&self, key: &[u8]) -> String {
 		match self.roots.get(key) {
 			None => "none".into(),
 			Some(r) => {
@@ -258,7 +258,7 @@ impl Forest {
 		}
 	}
 	/// a path (root key, child indices) to every live node, by breadth-first search
-	fn paths(&self) -> HashMap<usize, (Vec<u8>, Vec<usize>)> {
+	pub(crate) fn paths(&self) -> HashMap<usize, (Vec<u8>, Vec<usize>)> {
 		let mut out: HashMap<usize, (Vec<u8>, Vec<usize>)> = HashMap::new();
 		let mut queue = std::collections::VecDeque::new();
 		for (k, r) in &self.roots {
@@ -380,7 +380,7 @@ fn gen_node(
 	GNode { data, children }
 }
 
-fn to_real(g: &GNode, forest: &Forest, vals: &mut Values) -> NewNode {
+pub(crate) fn to_real(g: &GNode, forest: &Forest, vals: &mut Values) -> NewNode {
 	NewNode {
 		data: vals.bytes(&g.data),
 		children: g
